@@ -1049,3 +1049,111 @@ def check_results_matches_contract(root=True):
                  requires=requires, ensures=ensures, setup=setup, region=_cr_match_region, raises=lambda S, a, e: z3.BoolVal(False))
     c.region_name = "handing out the matches (%s)" % ("root" if root else "other ranks")
     return c
+
+
+# ------------------------------------------------------------ initial_sympify: merging the ranks' expression dictionaries (C13, C02)
+def _isym_dict_region(fnode):
+    """the `if save_sympy:` block inside the last `if parallel:` of initial_sympify"""
+    for s in reversed(fnode.body):
+        if isinstance(s, _ast.If) and isinstance(s.test, _ast.Name) and s.test.id == "parallel":
+            for t in s.body:
+                if isinstance(t, _ast.If) and isinstance(t.test, _ast.Name) and t.test.id == "save_sympy" and \
+                        any(isinstance(c, _ast.Call) and getattr(c.func, "attr", None) == "bcast" for c in _ast.walk(t)):
+                    return [t]
+    return None
+
+
+def initial_sympify_dict_contract():
+    """Every rank q holds an ordered dictionary with NKQ(q) entries, key i being KQ(q, i) with value VQ(q, i).  Afterwards sym_fun is, on
+    every rank, the dictionary whose keys are exactly the keys of all ranks and whose value for a key is the value of the FIRST entry
+    (ranks in order, entries in order) that has this key -- the same on every rank, for every rank count."""
+    from pyvc.values import HDict
+    NKQ = z3.Function("n_keys", I, I)
+    KQ = z3.Function("rank.key", I, I, Label)
+    VQ = z3.Function("rank.val", I, I, Fn)
+    HASG = z3.Function("some.rank.has", Label, z3.BoolSort())
+    FQ = z3.Function("first.rank", Label, I)
+    FI = z3.Function("first.index", Label, I)
+
+    def before(q1, i1, q2, i2):
+        return z3.Or(q1 < q2, z3.And(q1 == q2, i1 < i2))
+
+    def spec_rows(eng, name):
+        if name == "sym_keys":
+            return lambda q: _row(eng, NKQ(q), lambda i, q=q: VLabel(KQ(q, i)), etype=T.label)
+        return lambda q: _row(eng, NKQ(q), lambda i, q=q: VFn(VQ(q, i)), etype=T.fn)
+
+    def m_bcast(eng, st, args, kwargs, node):
+        name = st.ghost["coll"].get(id(node))
+        root = kwargs.get("root", args[1] if len(args) > 1 else VInt(0))
+        if name not in ("sym_keys", "sym_vals") or not isinstance(root, VInt):
+            raise Unsupported("bcast outside the sidecar's specification")
+        eng.oblige(st, "bcast(%s): the root is a rank" % name, z3.And(0 <= root.t, root.t < P), "spmd", node)
+        b = spec_rows(eng, name)(root.t)
+        same(eng, st, args[0], b, "guarantee for bcast(%s): on the root the list sent is the specified one" % name, R == root.t, node)
+        return b
+
+    def mk_sym_fun(eng, st):
+        keys = _row(eng, NKQ(R), lambda i: VLabel(KQ(R, i)), etype=T.label)
+        LH = z3.Function("local.has", Label, z3.BoolSort())
+        LV = z3.Function("local.val", Label, Fn)
+        i = z3.Int("i!lk")
+        eng.axioms.append(z3.ForAll([i], z3.Implies(z3.And(0 <= i, i < NKQ(R)), z3.And(LH(KQ(R, i)), LV(KQ(R, i)) == VQ(R, i))), patterns=[KQ(R, i)]))
+        return st.alloc(HDict(lambda t: LH(t), lambda t: VFn(LV(t)), keys, T.label, T.fn))
+
+    def setup(eng, st, args):
+        st.env["rank"], st.env["size"] = VInt(R), VInt(P)
+        st.env["save_sympy"] = VBool(True)
+        eng.models["comm.bcast"] = m_bcast
+        st.ghost["coll"] = _collective_targets(eng.find_function("initial_sympify"))
+
+        def m_od(eng_, st_, a, k, n):
+            keys = st_.alloc(HSeq(0, lambda k_: VLabel(z3.Const("nokey", Label)), etype=T.label))
+            return st_.alloc(HDict(lambda q: z3.BoolVal(False), lambda q: VFn(z3.Const("novalue", Fn)), keys, T.label, T.fn))
+        eng.models["OrderedDict"] = m_od
+        q, i = z3.Ints("q!ax i!ax")
+        s_ = z3.Const("s!ax", Label)
+        eng.axioms += [
+            z3.ForAll([q], NKQ(q) >= 0, patterns=[NKQ(q)]),
+            # FQ / FI: the first (rank, index) holding a key -- a definition (witness of a well-founded minimum)
+            z3.ForAll([q, i], z3.Implies(z3.And(0 <= q, q < P, 0 <= i, i < NKQ(q)),
+                                         z3.And(HASG(KQ(q, i)), z3.Not(before(q, i, FQ(KQ(q, i)), FI(KQ(q, i)))))), patterns=[KQ(q, i)]),
+            z3.ForAll([s_], z3.Implies(HASG(s_), z3.And(0 <= FQ(s_), FQ(s_) < P, 0 <= FI(s_), FI(s_) < NKQ(FQ(s_)), KQ(FQ(s_), FI(s_)) == s_)), patterns=[HASG(s_)]),
+        ]
+
+    def dstate(S, r, i):
+        d = S.st.heap[S.var("all_sym").addr]
+        s_ = z3.Const(fresh_name("s!ds"), Label)
+        seen = z3.And(HASG(s_), before(FQ(s_), FI(s_), r, i))
+        return z3.ForAll([s_], z3.And(d.has(s_) == seen, z3.Implies(seen, d.val(s_).t == VQ(FQ(s_), FI(s_)))))
+
+    def outer(S, st):
+        return [("all_sym holds exactly the keys of the ranks below r, each with the value of its first occurrence", dstate(S, S.var("__i").t, z3.IntVal(0)))]
+
+    def inner(S, st):
+        return [("... and of the first i entries of rank r", dstate(S, S.eng.as_int(S.var("r")), S.var("__i").t))]
+
+    def ensures(S, a, res):
+        v = S.var("sym_fun")
+        if not isinstance(v, VRef) or not isinstance(S.st.heap[v.addr], HDict):
+            return [("sym_fun is the merged dictionary", z3.BoolVal(False))]
+        d = S.st.heap[v.addr]
+        s_ = z3.Const(fresh_name("s!sk"), Label)
+        return [("the merged dictionary has exactly the keys of all ranks", d.has(s_) == HASG(s_)),
+                ("the value of a key is the value of its first occurrence (ranks in order, entries in order): the same on every rank, whatever the rank count",
+                 z3.Implies(HASG(s_), d.val(s_).t == VQ(FQ(s_), FI(s_))))]
+
+    DT = T("dict", T.label, T.fn, True)
+
+    def loop_select(node):
+        if isinstance(node, _ast.For) and isinstance(node.target, _ast.Name) and node.target.id == "r":
+            return LoopSpec(outer, havoc_types={"all_sym": DT, "sym_keys": T.list(T.label), "sym_vals": T.list(T.fn), "key": T.label, "i": T.int})
+        if isinstance(node, _ast.For) and isinstance(node.target, _ast.Name) and node.target.id == "i":
+            return LoopSpec(inner, havoc_types={"all_sym": DT, "key": T.label})
+        return None
+
+    c = Contract("initial_sympify", {"sym_fun": mk_sym_fun}, requires=lambda S, a: [("0 <= rank < size", z3.And(0 <= R, R < P))], ensures=ensures, setup=setup,
+                 region=_isym_dict_region, raises=lambda S, a, e: z3.BoolVal(False))
+    c.loop_select = loop_select
+    c.region_name = "merging the ranks' expression dictionaries"
+    return c
